@@ -20,7 +20,7 @@ TICK = 0.5          # one time tick of Subsample.tla = 0.5 time units (dyadic: e
 TOL = Fraction(1, 10 ** 12)
 
 XS = [[1, 4], [1, 2], [3, 4], [1, 1]]                       # evaluation points a/b in (0,1]
-TS = [[1, 4], [1, 2], [3, 4], [1, 1], [1, 3], [2, 3]]       # transmissibilities a/b
+TS = [[1, 4], [1, 2], [3, 4], [1, 1], [1, 3], [2, 3], [0, 1]]       # transmissibilities a/b (0: nothing is transmitted, R0 = 0)
 
 SUB_INVARIANTS = ["CandBound", "ScanInv", "SubCorrect", "StepSemantics", "ShiftCorrect", "ShiftInv", "NoStuck"]
 SUB_PROPERTIES = ["Decreases", "InputsFrozen"]
